@@ -35,7 +35,7 @@ LABELS = ("range_km", "range_rate_km_p_sec", "azimuth_rad", "elevation_rad")   #
 RTOL = 1e-9
 INVS = ["WeightsSumToOne", "UnitSecondMoment", "TuningAdmissible", "Symmetric", "PSD",
         "PosteriorIsPriorMinusKSKt", "PosteriorLePrior", "NoObsReturnsPropagatedMean",
-        "ForecastUsesFreshSigmaPoints", "GainSolvesNormalEquations", "RedrawIsTextbookKalman", "NoRedrawIsVariant", "NoOverflow"]
+        "ForecastUsesFreshSigmaPoints", "GainSolvesNormalEquations", "RedrawIsTextbookKalman", "NoRedrawIsVariant", "UnitChangeEquivariant", "NoOverflow"]
 ACTIONS = ["PoseShape", "PoseDynamics", "PosePrior", "Predict", "PoseStack", "PoseObs", "Forecast",
            "Update", "UpdateNoObs", "Advance"]
 TRACE_INVS = ["WellFormed", "WeightsSumToOne", "KalmanPredict", "ForecastIsKalman", "Symmetric", "PSD", "KalmanInnovation",
@@ -161,6 +161,9 @@ def _close(got, exp, factor=1.0):
     return float(np.abs(got - exp).max()) <= RTOL * max(1.0, float(np.abs(exp).max())) * factor
 
 
+UNITS = (2.0 ** -17, 2.0 ** -10, 2.0 ** 10)      # 7.6e-6 (covariances ~6e-11), 1e-3, 1e3
+
+
 def stale_gain(F, P_prev, P_pred, H, S):
     """The gain obtained when the state residuals of the pre-resampling sigma points are paired
     with the measurement residuals of the redrawn ones (DESIGN.md 6, D11): C = F L (H L2)'."""
@@ -174,20 +177,35 @@ def stale_gain(F, P_prev, P_pred, H, S):
 
 def replay_behaviour(arg):
     """-> (key, nontrivial, violation or None).  Runs in a forked worker."""
-    b, with_shadow = arg
+    b, with_shadow = arg[0], arg[1]
+    # unit change (LinearGaussian!UnitChangeEquivariant): the same behaviour with state and measurement units scaled by
+    # u - x, y by u; P, Q, R, S by u^2; the gain unchanged.  u is a power of two, so the scaled problem has the same
+    # roundings as the posed one; everything the real filter returns is scaled back before it is compared.
+    u = float(arg[2]) if len(arg) > 2 else 1.0
     n = b["n"]
     mode = "redraw" if b["resample"] else "noredraw"
     F = np.array(b["F"], dtype=float)
     tun = b["tun"]
     kappa = None if tun["dflt"] else fr(tun["kappa"])
     nontrivial = any(s["obs"] or s["fcs"] for s in b["steps"])
-    key = beh_key(b)
+    key = beh_key(b) + ((u,) if u != 1.0 else ())
 
     def bad(sig, what, **got):
-        return key, nontrivial, (sig, what, {"behaviour": b, "got": {k: np.asarray(v).tolist() for k, v in got.items()}})
+        if u != 1.0:
+            sig, what = "unit-change-" + sig, what + f" [units scaled by {u!r}; values scaled back]"
+        return key, nontrivial, (sig, what, {"behaviour": b, "unit": u, "got": {k: np.asarray(v).tolist() for k, v in got.items()}})
+
+    class _Back:          # results scaled back to the posed units
+        def __init__(self, res):
+            self._r = res
+
+        def __getattr__(self, name):
+            v = np.asarray(getattr(self._r, name), dtype=float)
+            return v / u if name in ("pred_x", "est_x") else v if name == "kalman_gain" else v / (u * u)
 
     try:
-        args = (F, b["Q"], b["x0"], b["P0"], b["resample"], fr(tun["alpha"]), fr(tun["beta"]), kappa)
+        args = (F, np.array(b["Q"], dtype=float) * u * u, np.array(b["x0"], dtype=float) * u,
+                np.array(b["P0"], dtype=float) * u * u, b["resample"], fr(tun["alpha"]), fr(tun["beta"]), kappa)
         filt = make_filter(*args)
         shadow = make_filter(*args) if with_shadow else None
     except Exception as ex:  # noqa: BLE001
@@ -198,15 +216,19 @@ def replay_behaviour(arg):
         return bad("weights-sum", f"sigma-point mean weights sum to {wsum!r}, not 1 (n={n}, tuning {tun})", wsum=wsum)
     P_prev = np.array(b["P0"], dtype=float)
     for k, st in enumerate(b["steps"]):
-        obs = [make_obs(o["H"], o["R"], o["y"], 20000 + j) for j, o in enumerate(st["obs"])]
-        cands = [[make_obs(o["H"], o["R"], o["y"], 30000 + 10 * c + j) for j, o in enumerate(f["obs"])]
-                 for c, f in enumerate(st["fcs"])]
+        def mk(o, sid):
+            return make_obs(o["H"], np.array(o["R"], dtype=float) * u * u, np.array(o["y"], dtype=float) * u, sid)
+        obs = [mk(o, 20000 + j) for j, o in enumerate(st["obs"])]
+        cands = [[mk(o, 30000 + 10 * c + j) for j, o in enumerate(f["obs"])] for c, f in enumerate(st["fcs"])]
         nfc = f"{len(cands)} stand-alone forecast(s) before it" if cands else "no stand-alone forecast"
         where = f"step {k + 1} of {len(b['steps'])}, n={n}, {mode}, {nfc}"
         try:
             pres, fres, ures, sres = filter_step(filt, k, cands, obs, shadow)
         except Exception as ex:  # noqa: BLE001
             return bad(f"lattice-{mode}-exception-{type(ex).__name__}", f"the filter raised {ex!r} at {where}")
+        ures_raw = ures
+        if u != 1.0:
+            pres, fres, ures, sres = _Back(pres), [_Back(f) for f in fres], _Back(ures), (_Back(sres) if sres is not None else None)
         e_px, e_pp, e_x, e_p = qmat(st["predx"])[:, 0], qmat(st["predP"]), qmat(st["estx"])[:, 0], qmat(st["estP"])
         if not _close(pres.pred_x, e_px, cf):
             return bad("predict-pred_x", f"pred_x differs from F x at {where}", pred_x=pres.pred_x, expected=e_px)
@@ -251,7 +273,7 @@ def replay_behaviour(arg):
                            est_x=ures.est_x, expected=e_x)
         if sres is not None:
             try:
-                shadow.applyFilterResult(ures)          # not needed by the shadow itself; exercises apply()
+                shadow.applyFilterResult(ures_raw)      # not needed by the shadow itself; exercises apply()
             except Exception as ex:  # noqa: BLE001
                 return bad(f"handover-exception-{type(ex).__name__}", f"applyFilterResult(UKFUpdateResult) raised {ex!r} at {where}")
             for name, got, exp, fac in (("est_x", sres.est_x, e_x, cf), ("est_p", sres.est_p, e_p, 1.0)) + \
@@ -570,10 +592,14 @@ def run(ctx: Ctx):
                 or {b["resample"] for b in behaviours} != {True, False} or {b["n"] for b in behaviours} != {1, 2}:
             raise tlc.MachineryError(f"lattice does not exercise every action/mode: kinds={kinds} shapes={shapes}")
         behaviours.sort(key=beh_key)          # TLC's workers print in no fixed order; make the run deterministic
-        out = pool.map(replay_behaviour, [(b, i % 3 == 0) for i, b in enumerate(behaviours)], chunksize=64)
+        jobs = [(b, i % 3 == 0) for i, b in enumerate(behaviours)]
+        # every behaviour once more in other units (quick: one of the three scales, thorough: all three)
+        jobs += [(b, i % 5 == 0, UNITS[(i + j) % len(UNITS)]) for i, b in enumerate(behaviours)
+                 for j in range(1 if ctx.quick else len(UNITS))]
+        out = pool.map(replay_behaviour, jobs, chunksize=64)
         by_sig: dict = {}
         nviol = 0
-        for b, (key, nontrivial, viol) in zip(behaviours, out):
+        for (b, *_), (key, nontrivial, viol) in zip(jobs, out):
             ctx.case(("lattice",) + key, nontrivial=nontrivial,
                      sample={"n": b["n"], "resample": b["resample"], "tun": b["tun"], "F": b["F"], "steps": len(b["steps"]),
                              "obs": [[o["m"] for o in s["obs"]] for s in b["steps"]],
@@ -586,6 +612,7 @@ def run(ctx: Ctx):
             ctx.violation(sig, f"{vs[0][1]} [{len(vs)} lattice behaviours]", vs[0][2])
         ctx.traces_validated += len(behaviours)
         ctx.extra["lattice_behaviours_replayed"] = len(behaviours)
+        ctx.extra["lattice_unit_change_replays"] = len(jobs) - len(behaviours)
         ctx.extra["lattice_behaviours_two_step"] = sum(1 for b in behaviours if len(b["steps"]) == 2)
         ctx.extra["lattice_behaviours_with_standalone_forecasts"] = sum(1 for b in behaviours if any(s["fcs"] for s in b["steps"]))
         ctx.extra["lattice_standalone_forecasts_compared"] = sum(len(s["fcs"]) for b in behaviours for s in b["steps"])
@@ -670,7 +697,7 @@ def replay(ctx: Ctx, rp: dict):
     r = rp["replay"]
     if "behaviour" in r:
         b = r["behaviour"]
-        key, nontrivial, viol = replay_behaviour((b, True))
+        key, nontrivial, viol = replay_behaviour((b, True, rp["replay"].get("unit", 1.0)))
         ctx.case(("lattice",) + key, nontrivial=nontrivial)
         ctx.case(("replay", rp.get("signature")))
         if viol:
